@@ -277,7 +277,14 @@ def run(ctx):
         # the value reaches generate_asimov_data / the bkg fixed_poi_fit as first argument
     ts = repo.method(CALC, "AsymptoticCalculator", "teststatistic")
     gcs = [c for c in A.calls_in(ts.node) if A.call_attr(c) == "generate_asimov_data"]
-    if gcs and gcs[0].args and "asimov_mu" in A.names_loaded(gcs[0].args[0]):
+    from ..dep import Deps as _Deps
+    _d = _Deps(ts.node)
+    _sel = [n for n in ast.walk(ts.node) if isinstance(n, ast.IfExp) and "test_stat" in A.unparse(n.test)]
+    def _is_selector(e):
+        if any(x is s_ for s_ in _sel for x in ast.walk(e)):
+            return True
+        return isinstance(e, ast.Name) and any(any(x is s_ for s_ in _sel for x in ast.walk(dv)) for dv in _d.defs.get(e.id, []))
+    if gcs and gcs[0].args and _is_selector(gcs[0].args[0]):
         ctx.holds(r3, f"{CALC}::AsymptoticCalculator.teststatistic -> generate_asimov_data(asimov_mu, ...)")
     else:
         ctx.violated(r3, ts, "generate_asimov_data(...)", "the Asimov dataset is not generated at the selected mu_A", node=gcs[0] if gcs else ts.node)
